@@ -670,3 +670,66 @@ func init() {
 		return nil
 	}
 }
+
+// ---- bufio.Reader.ReadSlice / ReadBytes ------------------------------------------
+func init() {
+	bytesOf := func(ex *Exec, s []*Term, label string) Value {
+		arr := &ArrayV{E: make([]Value, len(s))}
+		for i, b := range s {
+			arr.E[i] = b
+		}
+		obj := ex.newObject(nil, arr, label)
+		return &Slice{Arr: obj, Len: len(s), Cap: len(s)}
+	}
+	// ReadSlice: the line must fit the 4096-byte buffer, otherwise the full buffer comes back with ErrBufferFull.
+	models["(*bufio.Reader).ReadSlice"] = func(ex *Exec, fr *frame, a []Value) Value {
+		p := a[0].(*Ptr)
+		if p.Obj == nil {
+			ex.goPanicRuntime("nil pointer dereference")
+		}
+		g := p.Obj.Ghost.(*readerGhost)
+		delim := &Str{B: []*Term{a[1].(*Term)}}
+		for tries := 0; ; tries++ {
+			win := g.buf
+			if len(win.B) > bufioSize {
+				win = &Str{B: g.buf.B[:bufioSize]}
+			}
+			if i := ex.indexFork(win, delim, false); i >= 0 {
+				line := g.buf.B[:i+1]
+				g.buf = &Str{B: g.buf.B[i+1:]}
+				return Tuple{bytesOf(ex, line, "ReadSlice"), &Iface{}}
+			}
+			if len(g.buf.B) >= bufioSize {
+				line := g.buf.B[:bufioSize]
+				g.buf = &Str{B: g.buf.B[bufioSize:]}
+				return Tuple{bytesOf(ex, line, "ReadSlice"), ex.mkError("bufio: buffer full")}
+			}
+			if g.err != nil {
+				line := g.buf.B
+				g.buf = &Str{}
+				err := g.err
+				g.err = nil
+				return Tuple{bytesOf(ex, line, "ReadSlice"), err}
+			}
+			if tries > 100 {
+				return Tuple{&Slice{Nil: true}, ex.mkError("multiple Read calls return no data or error")}
+			}
+			sl := ex.makeSlice(types.Typ[types.Uint8], bufioSize, bufioSize)
+			res := ex.invoke(fr, g.rd, "Read", sl).(Tuple)
+			n := ex.concreteInt(fr, res[0], "Read n")
+			arr := sl.Arr.V.(*ArrayV)
+			nb := append([]*Term(nil), g.buf.B...)
+			for i := 0; i < n; i++ {
+				nb = append(nb, arr.E[i].(*Term))
+			}
+			g.buf = &Str{B: nb}
+			if !isNilIface(res[1]) {
+				g.err = res[1]
+			}
+		}
+	}
+	models["(*bufio.Reader).ReadBytes"] = func(ex *Exec, fr *frame, a []Value) Value {
+		r := models["(*bufio.Reader).ReadString"](ex, fr, a).(Tuple)
+		return Tuple{bytesOf(ex, r[0].(*Str).B, "ReadBytes"), r[1]}
+	}
+}
